@@ -25,7 +25,7 @@ PROPS = {
     "C02": dict(_rt("generated RFC-0166 files are reproduced byte for byte"), bounded="bounded.b_c02"),
     "C03": dict(_rt("comments of every enumerated program survive once, in order, on the same side of every non-delimiter token"), bounded="bounded.b_c03"),
     "C06": dict(_rt("rebuilt text of every enumerated program with line-level comments is a fixed point"), bounded="bounded.b_c06"),
-    "C15": dict(_rt("deep snapshot of the tree (incl. Scope.owner, list identities) equal before/after rebuild; repeated rebuild equal"), bounded="bounded.b_c15"),
+    "C15": dict(_rt("deep snapshot of the tree (incl. Scope.owner, list identities) equal before/after rebuild; repeated rebuild equal"), bounded="bounded.b_c15", analyses=["analyses.purity"]),
     "C18": dict(_rt("lexical scan of every inter-token gap of the rebuilt text"), bounded="bounded.b_c18"),
     "C04": dict(level="exploration", bounded="bounded.b_c04", trusted_base=TRUSTED_COMMON + ["tree-sitter-nix as independent tokenizer / extent oracle"],
                 technique="contracts on the real code: frames of the edit functions by pvc where reached; text locality decided by a run-time-checked postcondition on set_value/remove_value over an enumerated document x path x value space (labelled bounded)",
@@ -71,7 +71,7 @@ PROPS = {
                 technique="contracts on the real code: CLI verdict/exit code proved by pvc on main(); pass-through and refusal decided by run-time-checked postconditions over an exhaustive fault enumeration (labelled bounded)",
                 text="every damaged text (token deleted/duplicated, delimiter inserted, truncated at every byte, whitespace-wrapped) is passed through byte for byte, fails `nima test`, and is refused by set/rm and as a VALUE",
                 note="the test-verdict branch of main() is proved (contract `main`); pass-through through tree-sitter is bounded"),
-    "C20": dict(level="exploration", bounded="bounded.b_c20", trusted_base=TRUSTED_COMMON,
+    "C20": dict(level="exploration", bounded="bounded.b_c20", analyses=["analyses.cost"], trusted_base=TRUSTED_COMMON,
                 technique="contracts on the real code: ghost rebuild-call bound (analysis) where built; exception types and rebuild-call growth decided by run-time-checked postconditions on bounded families (labelled bounded)",
                 text="only documented error types escape parse+rebuild on valid/damaged/UTF-8 texts; rebuild-call counts stay polynomial on 19 nesting families",
                 note="CPU time itself, tree-sitter on arbitrary bytes and Python recursion limits are not addressed (DESIGN.md C20 N/A part)"),
